@@ -288,7 +288,8 @@ func verifyFunctionOpt(P *Program, fn *ssa.Function, props []string, opt func(*E
 				if i := strings.IndexByte(key, '#'); i >= 0 {
 					key = key[:i]
 				}
-				if want[k] || want[key] || e.ghostOfFresh(g.name) {
+				if want[k] || want[key] || e.ghostOfFresh(g.name) || k == "clock" {
+					// the clock is never framed: time passes in every function
 					continue
 				}
 				hv := e.ghost(entry, g.name, g.val.S)
@@ -470,6 +471,14 @@ func (e *Exec) applyContract(fr *Frame, st State, fn *ssa.Function, ct *FuncCont
 		} else {
 			st = e.havocGhost(st)
 		}
+	}
+	if g := st.getGhost("clock"); g != nil || ct.ModGhost {
+		// time passes inside every callee (by an arbitrary non-negative amount)
+		c := e.c
+		now := c.Fresh("now", BV(64))
+		old := e.ghost(st, "clock", BV(64))
+		st = st.assume(c.And(c.Sle(old, now), c.Slt(c.Sub(now, old), c.Const(64, 1<<50))))
+		st = st.setGhost("clock", now)
 	}
 	res := fn.Signature.Results()
 	var ret Val
@@ -748,6 +757,13 @@ func (e *Exec) enterLoopHeader(fr *Frame, st State, b *ssa.BasicBlock, prev *ssa
 		st = e.havocAbove(st, "loop")
 		if lc.HasGhost {
 			st = e.havocGhostKinds(st, lc.GhostKinds)
+			{
+				// time passes in every iteration
+				now := c.Fresh("now", BV(64))
+				old := e.ghost(st, "clock", BV(64))
+				st = st.assume(c.And(c.Sle(old, now), c.Slt(c.Sub(now, old), c.Const(64, 1<<50))))
+				st = st.setGhost("clock", now)
+			}
 		} else if rc := e.ctFor(fr); rc != nil && rc.ModGhost {
 			st = e.havocGhost(st)
 		}
@@ -836,7 +852,7 @@ func (e *Exec) enterLoopHeader(fr *Frame, st State, b *ssa.BasicBlock, prev *ssa
 				continue
 			}
 			seen[g.name] = true
-			if want[ghostKind(g.name)] || e.ghostOfFresh(g.name) {
+			if want[ghostKind(g.name)] || e.ghostOfFresh(g.name) || ghostKind(g.name) == "clock" {
 				continue
 			}
 			hv := e.ghost(cut.headState, g.name, g.val.S)
